@@ -88,9 +88,9 @@ CLAIMED['C01'] = dict(
          'arbitrary contract-respecting match intervals in bounded sources; each result must be in range, non-empty and carry the trimmed slice as text, '
          'and each model result must have end = start + length - 1. The unit extractor (prefix/suffix offsets), the merged parser modifier strip/restore and add_mod run on symbolic '
          'spans as well. At API level about 23 000 queries assembled from pools (pads, dialing/currency prefixes, bodies, tails) go through 12 recognisers with all real regexes '
-         '(small-scope enumeration through the solver): range, text = normalised slice, disjointness.',
+         'and the CJK extractors of 5 zh-cn recognisers (small-scope enumeration through the solver): range, text = normalised slice, disjointness.',
     note='In the unit obligations the regex engine is a stub returning symbolic intervals under the finditer contract; which intervals real patterns produce is decided only '
-         'on the composed pool. CJK extractors are not covered. Known finding F2 (empty date-time entity) is reported through its API witness; F1 and F17 were found here and repaired. ' + NOTE_COMMON,
+         'on the composed pool. CJK extractors are not covered. Known findings F2 (empty date-time entity) and F37 (ChineseMergedExtractor.add_mod, region identified by a call-site monitor) are reported through API witnesses; F1, F17, F38, F39 were found here and repaired. ' + NOTE_COMMON,
     design='§5/C01')
 CLAIMED['C12'] = dict(
     technique='one inductive step per overlap-resolution mechanism on symbolic intervals (symx + z3), known defect regions excluded and searched separately',
@@ -160,11 +160,13 @@ CLAIMED['C03'] = dict(
     design='§5/C03')
 
 CLAIMED['C04'] = dict(
-    technique='symbolic execution (symx + z3) of the real cardinal/ordinal token arithmetic on token shapes with symbolic number-word values',
+    technique='symbolic execution (symx + z3) of the real cardinal/ordinal token arithmetic (BaseNumberParser.__get_int_value, CJKNumberParser.get_int_value) on token shapes with symbolic number-word values, in 9 cultures',
     text=SX + 'BaseNumberParser.__get_int_value runs with the real English maps on token lists in which every number word is a placeholder with a symbolic value (ones, teens, '
          'tens), so each token shape (groups units..trillion, with/without "and", cardinal or ordinal last word) is decided for all its numbers at once. The shapes are '
          'validated against the real tokenising regex on a concrete standard spelling each.',
-    note='English only; the extraction regexes and the merged-number grouping are outside; quick covers one- and two-group shapes, thorough adds three-group shapes. ' + NOTE_COMMON,
+    note='English by an enumerated shape grammar (quick one- and two-group shapes, thorough three); fr, de, nl, it, pt, es, zh, ja by the shapes that independent spellers produce for ~550 (thorough ~4100) '
+         'boundary and sample numbers per culture, with an independent positional evaluator as oracle and an API composition check on the same numbers. Ordinals of the other cultures, the extraction '
+         'regexes beyond the sample and Japanese numerals from 10^4 are outside. Defects F30, F31, F33 were found here and repaired; F26-F29, F34, F35 are recorded regions. ' + NOTE_COMMON,
     design='§5/C04')
 
 CLAIMED['C05'] = dict(
